@@ -23,12 +23,15 @@ NAMES = ['EQ:AAA', 'EQ:BBB', 'EQ:CCC']
 
 
 # ------------------------------------------------------------------ 1. membership grid
-def membership(entries):
+def membership(item):
     from qstrader.asset.universe.dynamic import DynamicUniverse
     from qstrader.asset.universe.static import StaticUniverse
     viols = []
+    zone, entries = item if (len(item) == 2 and isinstance(item[0], str)) else ('UTC', item)
+    # the same instants written in another time zone are the same entry times
+    entries = tuple(None if e is None else e.tz_convert(zone) for e in entries)
     emap = dict(zip(NAMES, entries))
-    case = {'kind': 'membership', 'entries': [None if e is None else str(e) for e in entries]}
+    case = {'kind': 'membership', 'zone': zone, 'entries': [None if e is None else str(e) for e in entries]}
     # every ordered pair of query instants on ONE universe object (membership is a function of dt alone,
     # whatever was asked before), plus the ascending sweep on one object
     plans = [[q] for q in QUERIES] + [list(QUERIES)] + [[q1, q2] for q1 in QUERIES for q2 in QUERIES if q1 != q2]
@@ -61,7 +64,7 @@ def membership(entries):
             break
     nq = sum(len(pl) for pl in plans) + len(QUERIES)
     return {'viols': viols, 'execs': nq, 'evals': nq,
-            'nontrivial': any(e is not None for e in entries), 'outcome': tuple(case['entries'])}
+            'nontrivial': any(e is not None for e in entries), 'outcome': (zone, tuple(case['entries']))}
 
 
 # ------------------------------------------------------------------ 2. optimisers grid
@@ -214,7 +217,8 @@ def run(tier, res, is_known):
                 'complete real sessions with SingleSignalAlphaModel + DynamicUniverse; non-trivial (3) = session in which the '
                 'late asset traded')
     res.assumptions += ['order of the list returned by a dynamic universe is not compared (the statement does not fix it)']
-    product(membership, list(itertools.product(ENTRY_CHOICES, repeat=3)), res, is_known, label='membership grid')
+    product(membership, [(z, e) for z in ('UTC', 'America/New_York', 'Asia/Tokyo')
+                         for e in itertools.product(ENTRY_CHOICES, repeat=3)], res, is_known, label='membership grid')
     opt_items = []
     for n in (1, 2, 3):
         for keys in itertools.combinations(NAMES, n):
@@ -228,8 +232,8 @@ def run(tier, res, is_known):
 
 def replay(case):
     if case['kind'] == 'membership':
-        ent = [None if e is None else pd.Timestamp(e) for e in case['entries']]
-        return membership(tuple(ent))['viols']
+        ent = [None if e is None else pd.Timestamp(e).tz_convert('UTC') for e in case['entries']]
+        return membership((case.get('zone', 'UTC'), tuple(ent)))['viols']
     if case['kind'] == 'optimiser':
         w = case['weights']
         return optimisers((tuple(w.keys()), tuple(w.values())))['viols']
